@@ -445,3 +445,71 @@ func VfDeleteBucketEmptiness() {
 		zzvf.Assert(n == nil, "deleted-bucket-is-gone")
 	}
 }
+
+// VfBookkeepingHidden: C07 / C08 – internal bookkeeping (the .sgwtmp directory with in-progress multipart uploads and their
+// parts) never shows up in listings, whatever prefix, delimiter or marker the client chooses - including prefixes that name
+// the bookkeeping directory itself.
+func VfBookkeepingHidden() {
+	vfWorld()
+	p := vfNewPosix(vfConfig{})
+	zzvf.Assert(p.CreateBucket(vfCtx(), &s3.CreateBucketInput{Bucket: vfStr("bkt")}, vfACL("caller")) == nil, "setup-create-bucket")
+	key := "obj"
+	one := int64(1)
+	_, err := p.PutObject(vfCtx(), s3response.PutObjectInput{Bucket: vfStr("bkt"), Key: &key, Body: vfOneByte(), ContentLength: &one})
+	zzvf.Assert(err == nil, "setup-object")
+	up, err := p.CreateMultipartUpload(vfCtx(), s3response.CreateMultipartUploadInput{Bucket: vfStr("bkt"), Key: &key})
+	zzvf.Assert(err == nil, "setup-upload")
+	vfStorePart("bkt", key, up.UploadId, 1, []byte("P"), 0, "e1")
+	prefix := []string{"", ".", ".sgwtmp", ".sgwtmp/", ".sgwtmp/multipart", ".sgwtmp/multipart/"}[zzvf.Choice("prefix", 6)]
+	delim := []string{"", "/"}[zzvf.Choice("delimiter", 2)]
+	marker := []string{"", ".", ".sgwtmp/"}[zzvf.Choice("marker", 3)]
+	mk := int32(100)
+	hidden := func(s string) bool { return len(s) >= len(metaTmpDir) && s[:len(metaTmpDir)] == metaTmpDir }
+	var keys, cps []string
+	if zzvf.Choice("list_version", 2) == 0 {
+		l, err := p.ListObjects(vfCtx(), &s3.ListObjectsInput{Bucket: vfStr("bkt"), Prefix: &prefix, Marker: &marker, Delimiter: &delim, MaxKeys: &mk})
+		zzvf.Assert(err == nil, "list-succeeds")
+		for _, o := range l.Contents {
+			keys = append(keys, *o.Key)
+		}
+		for _, c := range l.CommonPrefixes {
+			cps = append(cps, *c.Prefix)
+		}
+	} else {
+		l, err := p.ListObjectsV2(vfCtx(), &s3.ListObjectsV2Input{Bucket: vfStr("bkt"), Prefix: &prefix, ContinuationToken: vfStr(""), StartAfter: &marker,
+			Delimiter: &delim, MaxKeys: &mk})
+		zzvf.Assert(err == nil, "list-succeeds")
+		for _, o := range l.Contents {
+			keys = append(keys, *o.Key)
+		}
+		for _, c := range l.CommonPrefixes {
+			cps = append(cps, *c.Prefix)
+		}
+	}
+	zzvf.Reach("listed")
+	for _, k := range keys {
+		zzvf.Assert(!hidden(k), "no-bookkeeping-name-listed-as-a-key")
+	}
+	for _, c := range cps {
+		zzvf.Assert(!hidden(c), "no-bookkeeping-name-listed-as-a-common-prefix")
+	}
+}
+
+// VfPartIsNoObject: C08 – "parts and in-progress uploads never show up as objects": the file that holds an uploaded part is
+// not addressable as an object of the bucket (GET / HEAD of its internal path as a key fail), and neither is the upload
+// directory.
+func VfPartIsNoObject() {
+	vfWorld()
+	p := vfNewPosix(vfConfig{})
+	zzvf.Assert(p.CreateBucket(vfCtx(), &s3.CreateBucketInput{Bucket: vfStr("bkt")}, vfACL("caller")) == nil, "setup-create-bucket")
+	key := "obj"
+	up, err := p.CreateMultipartUpload(vfCtx(), s3response.CreateMultipartUploadInput{Bucket: vfStr("bkt"), Key: &key})
+	zzvf.Assert(err == nil, "setup-upload")
+	vfStorePart("bkt", key, up.UploadId, 1, []byte("P"), 0, "e1")
+	partKey := vfPartPath("bkt", key, up.UploadId, 1)[len("bkt/"):]
+	zzvf.Reach("probed")
+	_, gerr := p.GetObject(vfCtx(), &s3.GetObjectInput{Bucket: vfStr("bkt"), Key: &partKey, Range: vfStr("")})
+	zzvf.Assert(gerr != nil, "part-file-is-not-readable-as-an-object")
+	_, herr := p.HeadObject(vfCtx(), &s3.HeadObjectInput{Bucket: vfStr("bkt"), Key: &partKey})
+	zzvf.Assert(herr != nil, "part-file-has-no-object-metadata")
+}
